@@ -502,6 +502,8 @@ func NewRouterEnv(spec string) (*RouterEnv, error) {
 		// listeners on abstract UNIX sockets (listen: "@name"): the peer has no IP address (no ECS, no limiter subnet, the
 		// "no address" cache group) unless a DoH client-address header names one
 		kinds = append(kinds, "tcpunix", "gnetunix", "httpunix", "fasthttpunix")
+		// "udpds": a DUAL-STACK UDP listener ("[::]:port"): IPv4 clients appear as v4-mapped IPv6 addresses
+		kinds = append(kinds, "udpds")
 	}
 	for _, k := range kinds {
 		p := FreePort()
@@ -512,6 +514,10 @@ func NewRouterEnv(spec string) (*RouterEnv, error) {
 			unixSeq.Add(1)
 			env.Unix[k] = fmt.Sprintf("@verif-%d-%d-%s", os.Getpid(), unixSeq.Load(), k)
 			sc.Listen = env.Unix[k]
+		}
+		if k == "udpds" {
+			sc.Protocol = "udp"
+			sc.Listen = fmt.Sprintf("[::]:%d", p)
 		}
 		if k == "udpmr" {
 			sc.Protocol = "udp"
@@ -603,7 +609,7 @@ func (e *RouterEnv) Query(l string, wire []byte, client string, timeout, grace t
 	urlPath, qpre, qsuf := SplitQueryDecor(urlPath)
 	port := e.Ports[strings.TrimSuffix(strings.TrimSuffix(l, "-get"), "-post")]
 	switch {
-	case l == "udp" || l == "udpmr":
+	case l == "udp" || l == "udpmr" || l == "udpds":
 		dst := net.IPv4(127, 0, 0, 1)
 		if l == "udpmr" {
 			// a non-primary local address; the connected socket only accepts a reply coming from exactly this address
